@@ -58,22 +58,27 @@ Proof. unfold xid. intros H. injection H as H. apply Nat2N.inj, H. Qed.
 Lemma to_node_uuid k n : n_uuid (to_node k n) = nid k.
 Proof. unfold to_node. destruct (rn_dec n); reflexivity. Qed.
 
-Lemma ref_nth sr k n : nth_error (s_nodes sr) k = Some n -> nth_error (f_nodes (to_flow sr)) k = Some (to_node k n).
-Proof. intros H. unfold to_flow. cbn. rewrite nth_error_map, number_from_nth, H. reflexivity. Qed.
+(* the reference flow of a FLAT sheet: its nodes in the order they were made (for a flat sheet that is sheet order:
+   FlatSemFacts.to_flow_flat) *)
+Definition flat_flow (nodes : list rnode) : flow :=
+  mkFlow [0%N] [] (map (fun kn => to_node (fst kn) (snd kn)) (number_from 0 nodes)).
 
-Lemma ref_length sr : length (f_nodes (to_flow sr)) = length (s_nodes sr).
-Proof. unfold to_flow. cbn. rewrite map_length, number_from_length. reflexivity. Qed.
+Lemma ref_nth nodes k n : nth_error nodes k = Some n -> nth_error (f_nodes (flat_flow nodes)) k = Some (to_node k n).
+Proof. intros H. unfold flat_flow. cbn. rewrite nth_error_map, number_from_nth, H. reflexivity. Qed.
 
-Lemma ref_node_index sr k : k < length (s_nodes sr) -> node_index (to_flow sr) (nid k) = Some k.
+Lemma ref_length nodes : length (f_nodes (flat_flow nodes)) = length nodes.
+Proof. unfold flat_flow. cbn. rewrite map_length, number_from_length. reflexivity. Qed.
+
+Lemma ref_node_index nodes k : k < length nodes -> node_index (flat_flow nodes) (nid k) = Some k.
 Proof.
-  intros Hk. unfold node_index, to_flow. cbn.
+  intros Hk. unfold node_index, flat_flow. cbn.
   assert (G : forall (l : list rnode) i0 j, j < length l ->
             find_idx (fun nd => str_eqb (n_uuid nd) (nid (i0 + j))) (map (fun kn => to_node (fst kn) (snd kn)) (number_from i0 l)) = Some j).
   { induction l as [|a r IH]; intros i0 j Hj; cbn in *; [lia|]. rewrite to_node_uuid. destruct j as [|j].
     - rewrite Nat.add_0_r, str_eqb_refl. reflexivity.
     - destruct (str_eqb (nid i0) (nid (i0 + S j))) eqn:E; [apply str_eqb_eq, nid_inj in E; lia|].
       replace (i0 + S j) with (S i0 + j) by lia. rewrite IH by lia. reflexivity. }
-  apply (G (s_nodes sr) 0 k Hk).
+  apply (G nodes 0 k Hk).
 Qed.
 
 (* ---------------------------------------------------------------- what a flow does at a node *)
